@@ -83,7 +83,7 @@ type Spec struct {
 	PreEscrow    string `json:"pre_escrow"`    // aggregate module's prior balance of the hook denomination
 	ChanEscrow   string `json:"chan_escrow"`   // ICS-20 channel escrow balance of the returning denomination
 	// --- packet
-	Raw      string `json:"raw,omitempty"` // hex: packet data verbatim (malformed stream); otherwise the fields below
+	Raw      *string `json:"raw,omitempty"` // hex: packet data verbatim (malformed stream); otherwise the fields below
 	Denom    string `json:"denom"`
 	Amount   string `json:"amount"`
 	Sender   string `json:"sender"`
@@ -299,11 +299,8 @@ func receiverString(s string) string {
 }
 
 func packetData(s Spec) []byte {
-	if s.Raw != "" {
-		return hlib.UnHex(s.Raw)
-	}
-	if s.Raw == "" && s.Tag == "raw-empty" {
-		return []byte{}
+	if s.Raw != nil {
+		return hlib.UnHex(*s.Raw)
 	}
 	// the encoding ICS-20 senders produce (sorted JSON); built by hand so that blank / odd fields survive
 	m := map[string]string{"amount": s.Amount, "denom": s.Denom, "receiver": receiverString(s.Receiver), "sender": s.Sender}
@@ -352,9 +349,6 @@ func (e *env) snap(ctx sdk.Context, recv sdk.AccAddress, hookDenom, gotDenom str
 			return false
 		}
 		if gotDenom != "" && c.Denom == gotDenom && addr.Equals(recv) {
-			return false
-		}
-		if c.Denom == "aphoton" || c.Denom == "atele" && false {
 			return false
 		}
 		rest = append(rest, "b/"+addr.String()+"/"+c.String())
